@@ -1073,6 +1073,10 @@ async fn wait_for_shutdown(
 
 	// Send an error to the frontend if the send or receive task completed with an error.
 	if let Either::Left((Some(Err(err)), _)) = future::select(rx_item, client_dropped).await {
-		*err_to_front.write().expect(NOT_POISONED) = Some(Arc::new(err));
+		// The first recorded cause is THE disconnect cause (the send task may have recorded its own already).
+		let mut reason = err_to_front.write().expect(NOT_POISONED);
+		if reason.is_none() {
+			*reason = Some(Arc::new(err));
+		}
 	}
 }
